@@ -593,3 +593,9 @@ func accName(structName, field string, idx int) string {
 	}
 	return structName + "." + field
 }
+
+// RangeVisitedArray: per map, the set of keys already yielded by the range loop in progress.
+func (w *World) RangeVisitedArray(m *types.Map) (string, Sort) {
+	pn, ps, _, _ := w.MapArrays(m)
+	return "RangeVisited" + strings.TrimPrefix(pn, "MapP"), ps
+}
